@@ -230,7 +230,10 @@ rs_decide(const struct rs_table *t, const struct rs_req *q, struct rs_decision *
       o->kind = RS_K_NONE;
       o->alt_kinds = q->mcast ? 0 : 1 << RS_K_RST; /* RFC 7252 8.1: never Reset a multicast NON */
     } else {
-      o->kind = RS_K_NONE; /* RFC 7252 4.2: never answer ACK / RST with ACK / RST */
+      /* RFC 7252 4.2 says never to answer ACK / RST with ACK / RST, but the statement allows "Reset or ignored"
+       * for every invalid code class and fixes nothing more for ACK / RST typed datagrams */
+      o->kind = RS_K_NONE;
+      o->alt_kinds = 1 << RS_K_RST;
     }
     return;
   }
@@ -340,8 +343,10 @@ rs_decide(const struct rs_table *t, const struct rs_req *q, struct rs_decision *
   size_t hostlen = 0;
   int to_self = 0, forward = 0;
   if (proxy_req && !t->has_proxy) {
-    /* RFC 7252 5.10.2: MUST 5.05 */
-    o = add(d, RS_R_PROXY_UNSUPPORTED);
+    /* RFC 7252 5.10.2: "An endpoint receiving a request with a Proxy-Uri [Proxy-Scheme] Option that is unable or
+     * unwilling to act as a forward-proxy for the request MUST cause the return of a 5.05"; statement: "proxy options
+     * without proxy support 5.05".  Proxy-Scheme without Uri-Host is given its own rule name (own signature). */
+    o = add(d, ps && !uh ? RS_R_PROXY_SCHEME_NO_HOST : RS_R_PROXY_UNSUPPORTED);
     o->code = RS_CODE(5, 5);
   } else if (proxy_req) {
     if ((pu && ps) || (ps && !uh)) {
@@ -587,7 +592,9 @@ rs_selftest(void) {
   REQ(RS_T_CON, 1); OPT(35, "coap://h/x", 10);
   rs_decide(&t, &q, &d); expect("Proxy-Uri, no proxy", &d, RS_R_PROXY_UNSUPPORTED, RS_K_RESPONSE, RS_CODE(5, 5), RS_H_NONE);
   REQ(RS_T_CON, 1); OPT(11, "a", 1); OPT(39, "coap", 4);
-  rs_decide(&t, &q, &d); expect("Proxy-Scheme, no proxy", &d, RS_R_PROXY_UNSUPPORTED, RS_K_RESPONSE, RS_CODE(5, 5), RS_H_NONE);
+  rs_decide(&t, &q, &d); expect("Proxy-Scheme (no Uri-Host), no proxy", &d, RS_R_PROXY_SCHEME_NO_HOST, RS_K_RESPONSE, RS_CODE(5, 5), RS_H_NONE);
+  REQ(RS_T_CON, 1); OPT(3, "h", 1); OPT(11, "a", 1); OPT(39, "coap", 4);
+  rs_decide(&t, &q, &d); expect("Proxy-Scheme + Uri-Host, no proxy", &d, RS_R_PROXY_UNSUPPORTED, RS_K_RESPONSE, RS_CODE(5, 5), RS_H_NONE);
   REQ(RS_T_CON, 1); OPT(11, "a", 1); OPT(16, &one, 1);
   rs_decide(&t, &q, &d); expect("Hop-Limit 1", &d, RS_R_HOP_LIMIT, RS_K_RESPONSE, RS_CODE(5, 8), RS_H_NONE);
   REQ(RS_T_CON, 1); OPT(11, "a", 1); OPT(16, &zero, 1);
